@@ -241,24 +241,87 @@ Proof. intros a b H. rewrite (vcmp_antisym a b). destruct (vcmp a b); cbn [CompO
 Lemma vcmp_flip' : forall a b, vcmp a b <> Gt -> vcmp b a <> Lt.
 Proof. intros a b H. rewrite (vcmp_antisym a b). destruct (vcmp a b); cbn [CompOpp]; congruence. Qed.
 
-Lemma f_inf_dec : forall m : f64, {m = f_inf} + {m <> f_inf}.
-Proof. intros [s|[|]| |s m e]; (left; reflexivity) || (right; discriminate). Defined.
-Lemma f_neg_inf_dec : forall m : f64, {m = f_neg_inf} + {m <> f_neg_inf}.
-Proof. intros [s|[|]| |s m e]; (left; reflexivity) || (right; discriminate). Defined.
-
-Lemma minmax_emit_min : forall m mi, m <> f_inf ->
-  minmax_emit true m mi =
+Lemma minmax_emit_min : forall m mi,
+  minmax_emit true (Some m) mi =
   match mi with Some i => vmin (VInt i) (from_float m) | None => from_float m end.
-Proof.
-  intros m mi H. destruct m as [s|[|]| |s mm ee]; try reflexivity.
-  exfalso; apply H; reflexivity.
-Qed.
-Lemma minmax_emit_max : forall m mi, m <> f_neg_inf ->
-  minmax_emit false m mi =
+Proof. intros m [i|]; reflexivity. Qed.
+Lemma minmax_emit_max : forall m mi,
+  minmax_emit false (Some m) mi =
   match mi with Some i => vmax (VInt i) (from_float m) | None => from_float m end.
+Proof. intros m [i|]; reflexivity. Qed.
+Lemma minmax_emit_none : forall is_min mi,
+  minmax_emit is_min None mi = match mi with Some i => VInt i | None => VNone end.
+Proof. intros is_min [i|]; reflexivity. Qed.
+
+(** ** the double extremum [minF] / [maxF]: the least / greatest of the non-NaN elements *)
+Lemma not_nan_true : forall f, not_nan f = true <-> f_is_nan f = false.
+Proof. intro f. unfold not_nan. destruct (f_is_nan f); cbn [negb]; split; congruence. Qed.
+
+(** NaN is the greatest value of [ocmp] *)
+Lemma ocmp_nan_r : forall m g, f_is_nan g = true -> ocmp m g <> Gt.
 Proof.
-  intros m mi H. destruct m as [s|[|]| |s mm ee]; try reflexivity.
-  exfalso; apply H; reflexivity.
+  intros m g Hg. destruct g; try discriminate Hg. destruct m; cbv; discriminate.
+Qed.
+
+Lemma minF_spec : forall l m, minF l = Some m ->
+  f_is_nan m = false /\ In m l /\ (forall x, In x l -> ocmp m x <> Gt).
+Proof.
+  intros l m H. unfold minF in H.
+  destruct (filter not_nan l) as [|x r] eqn:E; [discriminate H|].
+  inversion H as [Hm]; clear H.
+  assert (Nx : f_is_nan x = false).
+  { apply not_nan_true. eapply proj2. apply filter_In. rewrite E. left; reflexivity. }
+  destruct (fmin_fold_spec r x Nx) as (N & I & Lx & L).
+  split; [exact N|]. split.
+  - eapply proj1. apply filter_In. rewrite E.
+    destruct I as [I|I]; [left; symmetry; exact I|right; exact I].
+  - intros g Hg. destruct (f_is_nan g) eqn:Ng; [apply ocmp_nan_r; exact Ng|].
+    assert (Hg' : In g (x :: r)).
+    { rewrite <- E. apply filter_In. split; [exact Hg|apply not_nan_true; exact Ng]. }
+    destruct Hg' as [Hg'|Hg']; [subst g; exact Lx|apply L; exact Hg'].
+Qed.
+
+(** for max the NaN elements are skipped although they are the greatest of the order *)
+Lemma maxF_spec : forall l m, maxF l = Some m ->
+  f_is_nan m = false /\ In m l /\ (forall x, In x l -> f_is_nan x = false -> ocmp x m <> Gt).
+Proof.
+  intros l m H. unfold maxF in H.
+  destruct (filter not_nan l) as [|x r] eqn:E; [discriminate H|].
+  inversion H as [Hm]; clear H.
+  assert (NA : Forall (fun f => f_is_nan f = false) (x :: r)).
+  { apply Forall_forall. intros g Hg. apply not_nan_true. eapply proj2. apply filter_In.
+    rewrite E. exact Hg. }
+  inversion NA as [|x' r' Nx Nr]; subst x' r'.
+  destruct (fmax_fold_spec r x Nx Nr) as (N & I & Lx & L).
+  split; [exact N|]. split.
+  - eapply proj1. apply filter_In. rewrite E.
+    destruct I as [I|I]; [left; symmetry; exact I|right; exact I].
+  - intros g Hg Ng.
+    assert (Hg' : In g (x :: r)).
+    { rewrite <- E. apply filter_In. split; [exact Hg|apply not_nan_true; exact Ng]. }
+    destruct Hg' as [Hg'|Hg']; [subst g; exact Lx|apply L; exact Hg'].
+Qed.
+
+Lemma filter_not_nan_nil : forall l,
+  filter not_nan l = [] <-> Forall (fun f => f_is_nan f = true) l.
+Proof.
+  induction l as [|x l IH]; [split; [constructor|reflexivity]|].
+  cbn [filter]. unfold not_nan at 1. destruct (f_is_nan x) eqn:Nx; cbn [negb].
+  - split.
+    + intro H. constructor; [exact Nx|apply IH; exact H].
+    + intro H. inversion H; subst. apply IH. assumption.
+  - split; [discriminate|]. intro H. inversion H; subst. congruence.
+Qed.
+
+Lemma minF_none : forall l, minF l = None <-> Forall (fun f => f_is_nan f = true) l.
+Proof.
+  intro l. rewrite <- filter_not_nan_nil. unfold minF.
+  destruct (filter not_nan l); split; congruence.
+Qed.
+Lemma maxF_none : forall l, maxF l = None <-> Forall (fun f => f_is_nan f = true) l.
+Proof.
+  intro l. rewrite <- filter_not_nan_nil. unfold maxF.
+  destruct (filter not_nan l); split; congruence.
 Qed.
 
 (** ** assembling: a value below the least integer and below the least double is below everything *)
@@ -322,75 +385,63 @@ Qed.
 (** ** min *)
 
 (** The sharp form.  Hypotheses: every non-integer numeric argument is a well-formed double, and
-    there is something to report: an integer argument, or a double that is neither NaN (skipped by
-    [fltb]) nor +inf (the INITIAL value of the accumulator: seeing it is indistinguishable from
-    seeing no double at all).  NaN and +inf arguments are otherwise harmless for min: they are the
-    two greatest values of the order.  [min_degenerate] below shows that the second hypothesis
-    cannot be dropped. *)
+    there is something to report: an integer argument, or a double that is not NaN (a NaN is
+    skipped).  NaN arguments are otherwise harmless for min: NaN is the greatest value of the
+    order.  Infinite arguments need no care: an all-+inf group has minimum +inf.
+    [min_degenerate] below shows that the second hypothesis cannot be dropped. *)
 Theorem min_is_least_sharp : forall e rows v,
   Forall wf (float_args e rows) ->
   (int_args e rows <> [] \/
-   Exists (fun f => f_is_nan f = false /\ f <> f_inf) (float_args e rows)) ->
+   Exists (fun f => f_is_nan f = false) (float_args e rows)) ->
   acc_emit (fold_left acc_step rows (acc_empty (FMin e))) = Ok v ->
   In v (candidates e rows) /\ (forall x, In x (candidates e rows) -> vcmp v x <> Gt).
 Proof.
   intros e rows v HW HE H. rewrite min_emit in H. inversion H as [Hv]; clear H.
   unfold candidates.
   set (ints := int_args e rows) in *. set (floats := float_args e rows) in *.
-  destruct (fmin_fold_spec floats f_inf eq_refl) as (N & I & _ & L).
-  set (m := fold_left (fun acc v0 => if fltb v0 acc then v0 else acc) floats f_inf) in *.
-  assert (Wm : wf m).
-  { destruct I as [I|I]; [rewrite I; reflexivity|].
-    rewrite Forall_forall in HW. apply HW. exact I. }
-  destruct (minZ ints) as [i|] eqn:Emi.
-  - destruct (minZ_spec _ _ Emi) as [Hi Hleast].
-    destruct (f_inf_dec m) as [Em|Em].
-    + (* no double below +inf: the least integer *)
-      rewrite Em. cbn [minmax_emit f_inf].
-      apply (finish_min ints floats i m); try assumption.
-      * left; reflexivity.
-      * cbn [vcmp]. rewrite Z.compare_refl. discriminate.
-      * rewrite Em. cbv. discriminate.
-    + rewrite minmax_emit_min by exact Em.
+  destruct (minF floats) as [m|] eqn:Em.
+  - destruct (minF_spec _ _ Em) as (N & I & L).
+    assert (Wm : wf m) by (rewrite Forall_forall in HW; apply HW; exact I).
+    rewrite minmax_emit_min.
+    destruct (minZ ints) as [i|] eqn:Emi.
+    + destruct (minZ_spec _ _ Emi) as [Hi Hleast].
       destruct (vmin_spec (VInt i) (from_float m)) as (V1 & V2 & V3).
       apply (finish_min ints floats i m); try assumption.
-      destruct V1 as [V1|V1]; [left; exact V1|right]. split; [exact V1|].
-      destruct I as [I|I]; [contradiction|exact I].
-  - apply minZ_none in Emi. rewrite Emi. cbn [map app].
-    destruct (f_inf_dec m) as [Em|Em].
-    + exfalso. destruct HE as [HE|HE]; [apply HE; exact Emi|].
-      apply Exists_exists in HE. destruct HE as [g [Hg [Ng Gg]]].
-      specialize (L g Hg). rewrite Em in L.
-      destruct g as [s|[|]| |s mm ee]; try discriminate Ng;
-        try (apply L; reflexivity). apply Gg; reflexivity.
-    + rewrite minmax_emit_min by exact Em.
-      assert (Im : In m floats) by (destruct I as [I|I]; [contradiction|exact I]).
-      split; [apply in_map; exact Im|].
+      destruct V1 as [V1|V1]; [left; exact V1|right]. split; [exact V1|exact I].
+    + apply minZ_none in Emi. rewrite Emi. cbn [map app].
+      split; [apply in_map; exact I|].
       intros x Hx. apply in_map_iff in Hx. destruct Hx as [g [Eg Hg]]. subst x.
       assert (Wg : wf g) by (rewrite Forall_forall in HW; apply HW; exact Hg).
       rewrite vcmp_from_float by assumption. apply L. exact Hg.
+  - (* NaN doubles only *)
+    apply minF_none in Em. rewrite minmax_emit_none.
+    destruct (minZ ints) as [i|] eqn:Emi.
+    + destruct (minZ_spec _ _ Emi) as [Hi Hleast].
+      apply (finish_min ints floats i S754_nan); try assumption.
+      * reflexivity.
+      * intros g Hg. apply ocmp_nan_r. rewrite Forall_forall in Em. apply Em. exact Hg.
+      * left; reflexivity.
+      * cbn [vcmp]. rewrite Z.compare_refl. discriminate.
+      * vm_compute. discriminate.
+    + exfalso. apply minZ_none in Emi. destruct HE as [HE|HE]; [apply HE; exact Emi|].
+      apply Exists_exists in HE. destruct HE as [g [Hg Ng]].
+      rewrite Forall_forall in Em. rewrite (Em g Hg) in Ng. discriminate Ng.
 Qed.
 
-(** without an integer argument, and with NaN / +inf doubles only, min reports None -
+(** without an integer argument, and with NaN doubles only, min reports None -
     which is not a candidate as soon as there is such a double *)
 Theorem min_degenerate : forall e rows,
   int_args e rows = [] ->
-  Forall (fun f => f_is_nan f = true \/ f = f_inf) (float_args e rows) ->
+  Forall (fun f => f_is_nan f = true) (float_args e rows) ->
   acc_emit (fold_left acc_step rows (acc_empty (FMin e))) = Ok VNone.
 Proof.
-  intros e rows Hi HF. rewrite min_emit, Hi.
-  assert (E : fold_left (fun acc v => if fltb v acc then v else acc) (float_args e rows) f_inf = f_inf).
-  { induction HF as [|g l Hg Hl IH]; [reflexivity|]. cbn [fold_left].
-    destruct Hg as [Hg|Hg].
-    - destruct g; try discriminate Hg. exact IH.
-    - subst g. exact IH. }
-  rewrite E. reflexivity.
+  intros e rows Hi HF. rewrite min_emit, Hi. apply minF_none in HF. rewrite HF. reflexivity.
 Qed.
 
-(** The form with one [Forall] over the non-integer numeric arguments: well-formed, not NaN,
-    not +inf (the initial value of the accumulator).  -inf and all finite doubles are allowed. *)
+(** The form with one [Forall] over the non-integer numeric arguments: well-formed, not NaN.
+    Every other double, the infinities included, is allowed. *)
 Theorem min_is_least : forall e rows v,
-  Forall (fun f => valid_binary prec emax f = true /\ f_is_nan f = false /\ f <> f_inf)
+  Forall (fun f => valid_binary prec emax f = true /\ f_is_nan f = false)
          (float_args e rows) ->
   acc_emit (fold_left acc_step rows (acc_empty (FMin e))) = Ok v ->
   candidates e rows <> [] ->
@@ -407,68 +458,61 @@ Qed.
 (** ** max *)
 
 (** The sharp form.  Here a NaN argument must be excluded altogether: it is skipped, although it
-    is the greatest value of the order (see [max_nan_counterexample]).  -inf is the initial value
-    of the accumulator; a -inf argument is harmless unless it is all there is. *)
+    is the greatest value of the order (see [max_nan_counterexample]).  Beyond that there only
+    has to be something to report. *)
 Theorem max_is_greatest_sharp : forall e rows v,
   Forall wf (float_args e rows) ->
   Forall (fun f => f_is_nan f = false) (float_args e rows) ->
-  (int_args e rows <> [] \/ Exists (fun f => f <> f_neg_inf) (float_args e rows)) ->
+  (int_args e rows <> [] \/ float_args e rows <> []) ->
   acc_emit (fold_left acc_step rows (acc_empty (FMax e))) = Ok v ->
   In v (candidates e rows) /\ (forall x, In x (candidates e rows) -> vcmp v x <> Lt).
 Proof.
   intros e rows v HW HN HE H. rewrite max_emit in H. inversion H as [Hv]; clear H.
   unfold candidates.
   set (ints := int_args e rows) in *. set (floats := float_args e rows) in *.
-  destruct (fmax_fold_spec floats f_neg_inf eq_refl HN) as (N & I & _ & L).
-  set (m := fold_left (fun acc v0 => if fltb acc v0 then v0 else acc) floats f_neg_inf) in *.
-  assert (Wm : wf m).
-  { destruct I as [I|I]; [rewrite I; reflexivity|].
-    rewrite Forall_forall in HW. apply HW. exact I. }
-  destruct (maxZ ints) as [i|] eqn:Emi.
-  - destruct (maxZ_spec _ _ Emi) as [Hi Hgreatest].
-    destruct (f_neg_inf_dec m) as [Em|Em].
-    + rewrite Em. cbn [minmax_emit f_neg_inf].
-      apply (finish_max ints floats i m); try assumption.
-      * left; reflexivity.
-      * cbn [vcmp]. rewrite Z.compare_refl. discriminate.
-      * rewrite Em. cbv. discriminate.
-    + rewrite minmax_emit_max by exact Em.
+  destruct (maxF floats) as [m|] eqn:Em.
+  - destruct (maxF_spec _ _ Em) as (N & I & L0).
+    assert (L : forall g, In g floats -> ocmp g m <> Gt).
+    { intros g Hg. apply L0; [exact Hg|]. rewrite Forall_forall in HN. apply HN. exact Hg. }
+    assert (Wm : wf m) by (rewrite Forall_forall in HW; apply HW; exact I).
+    rewrite minmax_emit_max.
+    destruct (maxZ ints) as [i|] eqn:Emi.
+    + destruct (maxZ_spec _ _ Emi) as [Hi Hgreatest].
       destruct (vmax_spec (VInt i) (from_float m)) as (V1 & V2 & V3).
       apply (finish_max ints floats i m); try assumption.
-      destruct V1 as [V1|V1]; [left; exact V1|right]. split; [exact V1|].
-      destruct I as [I|I]; [contradiction|exact I].
-  - apply maxZ_none in Emi. rewrite Emi. cbn [map app].
-    destruct (f_neg_inf_dec m) as [Em|Em].
-    + exfalso. destruct HE as [HE|HE]; [apply HE; exact Emi|].
-      apply Exists_exists in HE. destruct HE as [g [Hg Gg]].
-      assert (Ng : f_is_nan g = false) by (rewrite Forall_forall in HN; apply HN; exact Hg).
-      specialize (L g Hg). rewrite Em in L.
-      destruct g as [s|[|]| |s mm ee]; try discriminate Ng;
-        try (apply L; reflexivity). apply Gg; reflexivity.
-    + rewrite minmax_emit_max by exact Em.
-      assert (Im : In m floats) by (destruct I as [I|I]; [contradiction|exact I]).
-      split; [apply in_map; exact Im|].
+      destruct V1 as [V1|V1]; [left; exact V1|right]. split; [exact V1|exact I].
+    + apply maxZ_none in Emi. rewrite Emi. cbn [map app].
+      split; [apply in_map; exact I|].
       intros x Hx. apply in_map_iff in Hx. destruct Hx as [g [Eg Hg]]. subst x.
       assert (Wg : wf g) by (rewrite Forall_forall in HW; apply HW; exact Hg).
       apply vcmp_flip'. rewrite vcmp_from_float by assumption. apply L. exact Hg.
+  - (* no double at all: each would be a NaN *)
+    apply maxF_none in Em. rewrite minmax_emit_none.
+    assert (Hnil : floats = []).
+    { destruct floats as [|g l]; [reflexivity|exfalso].
+      inversion Em as [|g1 l1 E1 _]; inversion HN as [|g2 l2 E2 _]; subst. congruence. }
+    destruct (maxZ ints) as [i|] eqn:Emi.
+    + destruct (maxZ_spec _ _ Emi) as [Hi Hgreatest].
+      apply (finish_max ints floats i f_neg_inf); try assumption.
+      * reflexivity.
+      * intros g Hg. rewrite Hnil in Hg. destruct Hg.
+      * left; reflexivity.
+      * cbn [vcmp]. rewrite Z.compare_refl. discriminate.
+      * vm_compute. discriminate.
+    + exfalso. apply maxZ_none in Emi. destruct HE as [HE|HE]; apply HE; assumption.
 Qed.
 
+(** without an integer argument, and with NaN doubles only, max reports None *)
 Theorem max_degenerate : forall e rows,
   int_args e rows = [] ->
-  Forall (fun f => f_is_nan f = true \/ f = f_neg_inf) (float_args e rows) ->
+  Forall (fun f => f_is_nan f = true) (float_args e rows) ->
   acc_emit (fold_left acc_step rows (acc_empty (FMax e))) = Ok VNone.
 Proof.
-  intros e rows Hi HF. rewrite max_emit, Hi.
-  assert (E : fold_left (fun acc v => if fltb acc v then v else acc) (float_args e rows) f_neg_inf = f_neg_inf).
-  { induction HF as [|g l Hg Hl IH]; [reflexivity|]. cbn [fold_left].
-    destruct Hg as [Hg|Hg].
-    - destruct g; try discriminate Hg. exact IH.
-    - subst g. exact IH. }
-  rewrite E. reflexivity.
+  intros e rows Hi HF. rewrite max_emit, Hi. apply maxF_none in HF. rewrite HF. reflexivity.
 Qed.
 
 Theorem max_is_greatest : forall e rows v,
-  Forall (fun f => valid_binary prec emax f = true /\ f_is_nan f = false /\ f <> f_neg_inf)
+  Forall (fun f => valid_binary prec emax f = true /\ f_is_nan f = false)
          (float_args e rows) ->
   acc_emit (fold_left acc_step rows (acc_empty (FMax e))) = Ok v ->
   candidates e rows <> [] ->
@@ -479,8 +523,7 @@ Proof.
   - eapply Forall_impl; [|exact HF]. intros f Hf. apply Hf.
   - unfold candidates in Hne.
     destruct (int_args e rows) as [|i l]; [|left; discriminate]. right.
-    destruct (float_args e rows) as [|g l]; [exfalso; apply Hne; reflexivity|].
-    inversion HF as [|g' l' Hg Hl]; subst. apply Exists_cons_hd. apply Hg.
+    destruct (float_args e rows) as [|g l]; [exfalso; apply Hne; reflexivity|discriminate].
 Qed.
 
 (** ** nothing to choose from: None *)
@@ -525,11 +568,24 @@ Proof.
   vm_compute. repeat constructor.
 Qed.
 
-(** FALSE when +inf (the initial value) may be the only argument of min: None is reported, which
-    is not a candidate; same for NaN alone (both are instances of [min_degenerate]) *)
-Example min_inf_counterexample :
+(** an infinite extremum is reported as such: a group whose only argument is +inf has minimum
+    +inf, one whose only argument is -inf has maximum -inf (both are candidates) *)
+Example min_inf_example :
   let rows := [ex_row (VFloat f_inf)] in
   candidates ex_e rows = [VFloat f_inf] /\
+  acc_emit (fold_left acc_step rows (acc_empty (FMin ex_e))) = Ok (VFloat f_inf).
+Proof. vm_compute. split; reflexivity. Qed.
+Example max_neg_inf_example :
+  let rows := [ex_row (VFloat f_neg_inf)] in
+  candidates ex_e rows = [VFloat f_neg_inf] /\
+  acc_emit (fold_left acc_step rows (acc_empty (FMax ex_e))) = Ok (VFloat f_neg_inf).
+Proof. vm_compute. split; reflexivity. Qed.
+
+(** FALSE when NaN may be the only argument of min: None is reported, which is not a candidate
+    (an instance of [min_degenerate]) *)
+Example min_nan_counterexample :
+  let rows := [ex_row (VFloat S754_nan)] in
+  candidates ex_e rows = [VFloat S754_nan] /\
   acc_emit (fold_left acc_step rows (acc_empty (FMin ex_e))) = Ok VNone.
 Proof. vm_compute. split; reflexivity. Qed.
 
@@ -582,3 +638,5 @@ Print Assumptions dur_display_nonempty.
 Print Assumptions min_big_ints.
 Print Assumptions max_big_ints.
 Print Assumptions max_nan_counterexample.
+Print Assumptions min_inf_example.
+Print Assumptions min_nan_counterexample.
